@@ -618,7 +618,7 @@ func c08StaleProbe(r *hx.Result, rng *hx.Rng) error {
 }
 
 func runC08(r *hx.Result, rng *hx.Rng, thorough bool, replay string) error {
-	r.Rule = "cases: (a) ahtree lives (append/reset/sync/reopen with tiny caches & chunk files) followed by RootAt for all sizes, Inclusion/Consistency proofs for all or sampled (i,j), and a mutation stream of verifier calls; (b) htree builds of every width with all/sampled leaf proofs + mutations. A verifier evaluation is non-trivial when it is a mutated call or an accepted one; distinct by the full call text."
+	r.Rule = "cases: (a0) ahtree fault lives: real multiapp files behind a fault-injecting wrapper, one call of Sync/Flush/Append/SetOffset/ReadAt/Size of the payload, digest or commit log fails once inside an Append/ResetSize/Sync/DataAt/RootAt/proof call (deterministic sweep over the fault points of Append x sync threshold 1..4 + random lives); after every failed operation the observable state must equal the reference tree over the surviving payloads. (a) ahtree lives (append/reset/sync/reopen with tiny caches & chunk files) followed by RootAt for all sizes, Inclusion/Consistency proofs for all or sampled (i,j), and a mutation stream of verifier calls; (b) htree builds of every width with all/sampled leaf proofs + mutations. A verifier evaluation is non-trivial when it is a mutated call or an accepted one; distinct by the full call text."
 	// SHA-256 of the model vs crypto/sha256
 	for n := 0; n <= 130; n++ {
 		b := rng.Bytes(n)
@@ -627,6 +627,13 @@ func runC08(r *hx.Result, rng *hx.Rng, thorough bool, replay string) error {
 	}
 	if err := c08StaleProbe(r, rng.Fork()); err != nil {
 		return err
+	}
+	// fault histories (c08fault.go): own stream, so that the fault-free cases below stay what they were per seed
+	if err := c08FaultRun(r, hx.NewRng(r.Seed^0xC08FA017), thorough); err != nil {
+		return err
+	}
+	if os.Getenv("C08_ONLY") == "fault" { // development aid
+		return r.Flush()
 	}
 	exN, lives, lifeN, probes := 40, 30, 300, 60
 	htAll, htMax := 70, 300
